@@ -43,8 +43,14 @@ def cq_refs(refs):
 def cq_world(w):
     cluster = L("(%s, mkCPolicy %s %s %s)" % (S(p["ns"] + "/" + p["name"]), cq_policy(p), S(p.get("class")), C.cq_bool(p["valid"]))
                 for p in w.get("policies") or [])
-    secrets = L("(%s, mkSecret %s %s)" % (S(s["ns"] + "/" + s["name"]), STYPE[s["type"]], C.cq_bool(s["valid"]))
-                for s in w.get("secrets") or [])
+    # the Secret informer events in order: every Secret is upserted; one with history "deleted" is deleted again
+    # before the resource is generated (Model.secrets_of_history: for the model it then does not exist)
+    ev = []
+    for s in w.get("secrets") or []:
+        ev.append("SecUpsert %s (mkSecret %s %s)" % (S(s["ns"] + "/" + s["name"]), STYPE[s["type"]], C.cq_bool(s["valid"])))
+        if s.get("history") == "deleted":
+            ev.append("SecDelete %s" % S(s["ns"] + "/" + s["name"]))
+    secrets = "(secrets_of_history %s)" % L(ev)
     appols = L(S(a["ns"] + "/" + a["name"]) for a in w.get("ap") or [] if a["kind"] == "pol" and a["usable"])
     logconfs = L(S(a["ns"] + "/" + a["name"]) for a in w.get("ap") or [] if a["kind"] == "log" and a["usable"])
     bundles = L(S(b) for b in w.get("bundles") or [])
@@ -301,13 +307,14 @@ def check(run):
         run.sample(slim(c))
     run.cov["rule"] = ("product: every policy kind (accessControl, rateLimit, jwt with secret, jwt with jwksURI, basicAuth, ingressMTLS, egressMTLS, oidc, apiKey, "
                        "waf with apPolicy+apLogConf, waf with bundles) x scope (server, route, subroute of a VirtualServerRoute, policies inherited by a VirtualServerRoute from "
-                       "the VirtualServer route) x failure mode (none; policy missing / invalid / foreign class; per Secret slot: missing, invalid, unsupported type, each of the five "
+                       "the VirtualServer route) x failure mode (none; policy missing / invalid / foreign class; per Secret slot: missing, existed valid / invalid and never referenced but DELETED before the resource arrived (driven through the real LocalSecretStore), invalid, unsupported type, each of the five "
                        "other supported types, other type and invalid; ingressMTLS without TLS; a second OIDC policy; tiered rate limits with conflicting defaults; APPolicy / "
                        "APLogConf missing / invalid; bundle / log bundle missing) x position (alone, after a valid accessControl policy, before one, after a valid policy of the "
-                       "same kind) x edition (OSS, Plus): ALL combinations, each through the real Configuration, createVirtualServerEx, Configurator and template; route shape "
-                       "(pass, splits, matches, return, gRPC upstream, pass with error pages for 500/502/503) drawn per case.  vstls / ing: VirtualServer, regular Ingress and master+minion hosts x 13 TLS secret states; Ingress JWT / "
-                       "basic auth (on the Ingress, the master, the minion) x 11 secret states.  random: 1-2 routes + optional VirtualServerRoute with 1-2 subroutes, 0-6 "
-                       "references per scope from a pool of 18 policies in random states.  A case is distinct by its world; non-trivial = some scope must fail or TLS must reject.")
+                       "same kind, and three positions with a second reference of the SAME NAME in another namespace: usable default/<name> then unusable other/<name>, usable "
+                       "other/<name> then unusable default/<name>, unusable first) x edition (OSS, Plus): ALL combinations, each through the real Configuration, createVirtualServerEx, Configurator and template; route shape "
+                       "(pass, splits, matches, return, gRPC upstream, pass with error pages for 500/502/503) drawn per case.  vstls / ing: VirtualServer, regular Ingress and master+minion hosts x 15 TLS secret states (incl. created-then-deleted); Ingress JWT / "
+                       "basic auth (on the Ingress, the master, the minion) x 13 secret states.  random: 1-2 routes + optional VirtualServerRoute with 1-2 subroutes, 0-6 "
+                       "references per scope from a pool of 18 policy names present in two namespaces in independent random states (same name in both namespaces in one list included), Secrets also created-then-deleted.  A case is distinct by its world; non-trivial = some scope must fail or TLS must reject.")
     run.cov["trusted_base"] = TRUSTED
     run.assumptions += ["NGINX itself is not run (no binary): that return in the rewrite phase pre-empts proxy_pass and that ssl_reject_handshake rejects is NGINX semantics, trusted",
                         "snippets are disabled in every generated case (a snippet could place arbitrary directives before the return)",
